@@ -50,6 +50,7 @@ pub mod k {
     pub const PANIC: u16 = 42;
     pub const RAWSYS: u16 = 43; // syscall(number, ...) called directly: a[0] = number
     pub const PIDFD_OPEN: u16 = 44;
+    pub const PRCTL: u16 = 45;
     pub const MAX: usize = 48;
 
     pub fn name(k: u16) -> &'static str {
@@ -61,7 +62,7 @@ pub mod k {
             NANOSLEEP => "sleep", OPEN => "open", EXIT => "_exit", ALLOC => "alloc", REALLOC => "realloc", DEALLOC => "dealloc",
             EXECVP => "execvp", POSIX_SPAWN => "posix_spawn", VFORK => "vfork", KILLPG => "killpg", CLOSE_RANGE => "close_range",
             SETSID => "setsid", FCHDIR => "fchdir", SETGROUPS => "setgroups", SELECT => "select", TGKILL => "tgkill",
-            SETRES => "setres*id", PANIC => "panic", RAWSYS => "syscall", PIDFD_OPEN => "pidfd_open", _ => "?",
+            SETRES => "setres*id", PANIC => "panic", RAWSYS => "syscall", PIDFD_OPEN => "pidfd_open", PRCTL => "prctl", _ => "?",
         }
     }
 }
